@@ -375,7 +375,7 @@ impl<'a> Gen<'a> {
                     let n = 1 + self.r.below(3);
                     for i in 0..n {
                         if self.r.bool() || i == 0 {
-                            parts.push(InterpPart::Str(self.r.pick(&["a", " ", "x=", "{", "`", "\\"]).as_bytes().to_vec()));
+                            parts.push(InterpPart::Str(self.r.pick(&["a", " ", "x=", "{", "`", "\\", "%", "50% ", "%d", "%s%%"]).as_bytes().to_vec()));
                         }
                         let e = match self.r.below(4) {
                             0 => self.small_int(),
@@ -1254,6 +1254,18 @@ impl<'a> Gen<'a> {
                 self.declare(&i, T::Num, false);
                 let mut body = vec![];
                 let c = Expr::bin(BinOp::Eq, Expr::bin(BinOp::Mod, name(&i), num(2.0)), num(0.0));
+                if self.r.chance(1, 3) {
+                    // a function (never called) that holds a loop with an empty body, written before the `continue`
+                    let inner = match self.r.below(4) {
+                        0 => Stmt::While { cond: Expr::False, body: Block { stmts: vec![] } },
+                        1 => Stmt::Repeat { body: Block { stmts: vec![] }, cond: Expr::True },
+                        2 => Stmt::NumFor { var: b("_"), start: num(1.0), limit: num(0.0), step: None, body: Block { stmts: vec![] } },
+                        _ => Stmt::GenFor { vars: vec![b("_")], exprs: vec![call("pairs", vec![Expr::Table(vec![])])], body: Block { stmts: vec![] } },
+                    };
+                    let f = Expr::Function(Rc::new(FuncBody { params: vec![], is_vararg: false, vararg_ty: None, generics: None, ret_ty: None, body: Block { stmts: vec![inner] }, attributes: vec![] }));
+                    let nm = self.fresh();
+                    body.push(Stmt::Local { names: vec![b(&nm)], values: vec![f], is_const: false });
+                }
                 body.push(Stmt::If { clauses: vec![(c, Block { stmts: vec![Stmt::Call(call("sink", vec![Expr::str("skip"), name(&i)])), Stmt::Continue] })], else_block: None });
                 if self.r.bool() {
                     let c2 = Expr::bin(BinOp::Gt, name(&i), num(3.0));
@@ -1300,10 +1312,18 @@ impl<'a> Gen<'a> {
                 let mut clauses = vec![];
                 for _ in 0..n {
                     let c = self.bool_expr(1);
-                    let v = match self.r.below(5) {
+                    let v = match self.r.below(7) {
                         0 => Expr::False,
                         1 => Expr::Nil,
                         2 => self.multi_call(1),
+                        5 | 6 => {
+                            // a nested if-expression whose first condition is constant and whose later branches are not
+                            let first = if self.r.bool() { Expr::False } else { Expr::Nil };
+                            let falsy = if self.r.bool() { Expr::False } else { Expr::Nil };
+                            let c2 = self.bool_expr(1);
+                            let (v2, e2) = if self.r.bool() { (falsy, self.any_simple(1)) } else { (self.any_simple(1), falsy) };
+                            Expr::paren(Expr::IfExpr { clauses: vec![(first, num(1.0)), (c2, v2)], else_: Box::new(e2) })
+                        }
                         _ => self.any_simple(1),
                     };
                     clauses.push((c, v));
@@ -1322,8 +1342,14 @@ impl<'a> Gen<'a> {
             }
             6 => {
                 self.idiom("interpolated");
+                if self.r.chance(1, 5) {
+                    // no value at all: the text is a plain literal (a `%` in it is not a format directive)
+                    let text = *self.r.pick(&["100%", "%d items", "50%% of %s", "plain", "%", "a%%b"]);
+                    out.push(Stmt::Call(call("sink", vec![Expr::Interp(vec![InterpPart::Str(text.as_bytes().to_vec())])])));
+                    return;
+                }
                 let e = {
-                    let mut parts = vec![InterpPart::Str(b"v=".to_vec())];
+                    let mut parts = vec![InterpPart::Str(self.r.pick(&["v=", "v=", "%", "50%: ", "%s="]).as_bytes().to_vec())];
                     let hole = match self.r.below(6) {
                         0 => self.small_int(),
                         1 => self.str_expr(1),
@@ -1465,6 +1491,25 @@ impl<'a> Gen<'a> {
         match self.r.below(10) {
             0 | 1 | 2 => {
                 self.idiom("assert_call");
+                if self.f.hostile && self.r.chance(1, 4) {
+                    // arguments that are not calls but still have an effect (reading a field of an object whose __index
+                    // logs), mixed with calls: the order of the effects is observable
+                    let h = self.fresh();
+                    out.push(Stmt::Local { names: vec![b(&h)], values: vec![call("extt", vec![])], is_const: false });
+                    self.undeclare(&h);
+                    let n = 2 + self.r.below(3);
+                    let mut args: Vec<Expr> = vec![];
+                    for i in 0..n {
+                        args.push(match self.r.below(3) {
+                            0 => call("ext", vec![Expr::str("c")]),
+                            1 => Expr::field(name(&h), &format!("f{}", i)),
+                            _ => Expr::index(name(&h), num(i as f64)),
+                        });
+                    }
+                    let f = if self.r.bool() { name("assert") } else { Expr::field(name("debug"), if self.r.bool() { "profilebegin" } else { "profileend" }) };
+                    out.push(Stmt::Call(Expr::call(f, args)));
+                    return;
+                }
                 let n = self.r.below(4);
                 let mut args: Vec<Expr> = vec![];
                 for i in 0..n {
@@ -1635,6 +1680,28 @@ impl<'a> Gen<'a> {
         if self.f.scope_stress {
             // globals named like the first names a renamer hands out (read and written while no local shadows them)
             for g in ["a", "b", "c", "aa"] {
+                if self.r.chance(1, 3) {
+                    // ... and the same, but the first thing the file does with the name is to declare and read a local /
+                    // parameter / loop variable called like that in a scope that is closed before the global is used
+                    let k = num(self.r.below(9) as f64);
+                    let inner = match self.r.below(3) {
+                        0 => Stmt::Do(Block { stmts: vec![Stmt::Local { names: vec![b(g)], values: vec![k], is_const: false }, Stmt::Call(call("sink", vec![name(g)]))] }),
+                        1 => Stmt::NumFor { var: b(g), start: num(1.0), limit: num(1.0), step: None, body: Block { stmts: vec![Stmt::Call(call("sink", vec![name(g)]))] } },
+                        _ => {
+                            let body = Block { stmts: vec![Stmt::Return(vec![name(g)])] };
+                            let f = Expr::Function(Rc::new(FuncBody { params: vec![b(g)], is_vararg: false, vararg_ty: None, generics: None, ret_ty: None, body, attributes: vec![] }));
+                            Stmt::Call(call("sink", vec![Expr::call(Expr::paren(f), vec![k])]))
+                        }
+                    };
+                    stmts.push(inner);
+                    let tmp = self.fresh();
+                    stmts.push(Stmt::Local { names: vec![b(&tmp)], values: vec![num(2.0)], is_const: false });
+                    self.declare(&tmp, T::Num, false);
+                    stmts.push(Stmt::Assign { targets: vec![name(g)], values: vec![name(&tmp)] });
+                    stmts.push(Stmt::Call(call("sink", vec![name(g), name(&tmp)])));
+                    self.declare(g, T::Num, true);
+                    continue;
+                }
                 if self.r.bool() {
                     stmts.push(Stmt::Assign { targets: vec![name(g)], values: vec![num(self.r.below(9) as f64)] });
                     stmts.push(Stmt::Call(call("sink", vec![name(g)])));
